@@ -38,6 +38,7 @@ type c11Batch struct {
 	Tbl [][2]string `json:"tbl"` // unique keys, sorted
 	In  []string    `json:"in"`
 	Src string      `json:"src"` // tok | gram | raw | corpus
+	Sib *c11Sib     `json:"sib,omitempty"`
 }
 
 type c11Concat struct {
@@ -45,7 +46,48 @@ type c11Concat struct {
 	Tbl [][2]string `json:"tbl"`
 	S1  string      `json:"s1"`
 	S2  string      `json:"s2"`
+	Sib *c11Sib     `json:"sib,omitempty"`
 }
+
+// c11Sib is a differently configured sibling resolver living next to the resolver under test
+// of a batch / concat case: it is built from its own props.Builder() call and used on In.
+// When "before": built and used before the resolver under test is built; "between": built and
+// used after the resolver under test was built and before that one is used (so the earlier-built
+// resolver is used after a later one was configured); "interleaved" (batch): like "between", and
+// used again after every input of the batch.
+type c11Sib struct {
+	D    [3]string   `json:"d"`
+	Tbl  [][2]string `json:"tbl"`
+	In   string      `json:"in"`
+	When string      `json:"when"`
+}
+
+// c11HRes is the configuration of one resolver of a history case. D is the delimiter triple the
+// resolver is meant to use; Set lists the options that are set on the builder ('p' Prefix,
+// 's' Suffix, 'v' ValueSeparator): an option that is not set relies on the documented default
+// ("${", "}", ":"), and is only left out where D has that default. LookupFunc is always set.
+type c11HRes struct {
+	D   [3]string   `json:"d"`
+	Set string      `json:"set"`
+	Tbl [][2]string `json:"tbl"`
+}
+
+// c11HStep: op "build" builds resolver R from its own props.Builder() call (again, if it exists
+// already); op "use" resolves In with resolver R as built last.
+type c11HStep struct {
+	Op string `json:"op"`
+	R  int    `json:"r"`
+	In string `json:"in,omitempty"`
+}
+
+// c11Hist is a HISTORY: several resolvers alive in one process, built from separate
+// props.Builder() calls with different delimiter triples / lookup tables, used interleaved.
+type c11Hist struct {
+	Res   []c11HRes  `json:"res"`
+	Steps []c11HStep `json:"steps"`
+}
+
+var c11Default = [3]string{"${", "}", ":"}
 
 const (
 	c11LookupBudget = 10000 // lookups per Resolve call ("step budget")
@@ -55,13 +97,14 @@ const (
 
 func init() {
 	register(&Prop{ID: "C11", Run: c11Run,
-		Rule: "for each delimiter triple of {${ } :, #{ } |, << >> ::, %( ) ?, ${ } :-, {{ }} |, [[ ]] =>, @ )) ~} (separator shorter than, as long as and longer than the suffix; prefix shorter than, as long as and longer than the suffix): (tok) ALL token strings over {prefix,suffix,separator,a,b} up to a length bound against 7 fixed tables (plain, chain, self cycle, mutual cycle, separator-injecting values, unterminated values, key containing the separator); (gram) templates from the grammar text | prefix key-template [sep default-template] suffix (nesting depth <= 4, repetition, unknown keys, unterminated tails, stray suffix/separator) against random tables whose values are templates incl. self and mutual references; (raw) random strings over the delimiter CHARACTERS, lexed by the model; (concat) pairs of delimiter-balanced templates. A batch case is non-trivial when at least one input has a complete placeholder; distinct = distinct canonical case JSON.",
+		Rule: "for each delimiter triple of {${ } :, #{ } |, << >> ::, %( ) ?, ${ } :-, {{ }} |, [[ ]] =>, @ )) ~} (separator shorter than, as long as and longer than the suffix; prefix shorter than, as long as and longer than the suffix): (tok) ALL token strings over {prefix,suffix,separator,a,b} up to a length bound against 7 fixed tables (plain, chain, self cycle, mutual cycle, separator-injecting values, unterminated values, key containing the separator); (gram) templates from the grammar text | prefix key-template [sep default-template] suffix (nesting depth <= 4, repetition, unknown keys, unterminated tails, stray suffix/separator) against random tables whose values are templates incl. self and mutual references; (raw) random strings over the delimiter CHARACTERS, lexed by the model; (concat) pairs of delimiter-balanced templates; (hist) HISTORIES: 2-3 resolvers alive at once, built from separate props.Builder() calls with pairwise different triples and their own tables (half of the histories contain a resolver whose triple shares delimiters with the documented default ${ } : and leaves those options unset on the builder), used interleaved with a preference for resolvers built EARLIER than the latest builder call, on grammar templates of their own syntax (sometimes followed by a placeholder in a sibling's syntax); every use is compared with the reference and the model for that resolver's OWN triple and table and with a resolver built alone. One in four gram/raw/concat cases additionally has a sibling resolver with another triple, built and used before the resolver under test is built, between its build and its use, or interleaved with its uses. A batch case is non-trivial when at least one input has a complete placeholder; a history when a resolver is used on an input with a complete placeholder after a later builder call or while relying on builder defaults next to a sibling; distinct = distinct canonical case JSON.",
 		Assumptions: []string{
 			"delimiter triples are the eight fixed non-overlapping ones (no character shared by two delimiters of a triple); strings are ASCII",
 			"the model works on token lists (greedy left-to-right lexing for the triple; the resolved placeholder text is re-lexed before lookup); byte-level = token-level matching is validated by the raw stream (random strings and table values over the delimiter CHARACTERS, incl. partial delimiters), not proved",
 			"the concatenation clause is evaluated for pairs whose concatenation lexes to the concatenation of the lexings (no delimiter forms across the junction)",
 			"termination is observed as: at most 10000 lookups per Resolve call and a 20 s wall-clock backstop per batch",
-			"lookup tables are Go maps given through props.MapLookup (unique keys)"}})
+			"lookup tables are Go maps given through props.MapLookup (unique keys)",
+			"independence of resolvers built from separate props.Builder() calls is probed by histories of at most 3 resolvers and 9 uses; a history case first builds (and uses) one resolver with all four options set explicitly to the documented defaults, so its outcome depends on its own history only and the recorded case replays in a fresh process"}})
 	evals["C11"] = c11Eval
 	shrinkers["C11"] = c11Shrink
 }
@@ -81,9 +124,25 @@ type c11Resolver struct {
 }
 
 func c11NewResolver(d [3]string, tbl map[string]string) *c11Resolver {
+	return c11NewResolverSet(d, "psv", tbl)
+}
+
+// c11NewResolverSet builds a resolver from a fresh props.Builder() call, setting only the
+// delimiter options listed in set ('p', 's', 'v'); the others keep the builder's defaults.
+func c11NewResolverSet(d [3]string, set string, tbl map[string]string) *c11Resolver {
 	n := new(int)
 	ml := props.MapLookup(tbl)
-	r := props.Builder().Prefix(d[0]).Suffix(d[1]).ValueSeparator(d[2]).LookupFunc(func(k string) *string {
+	b := props.Builder()
+	if strings.Contains(set, "p") {
+		b = b.Prefix(d[0])
+	}
+	if strings.Contains(set, "s") {
+		b = b.Suffix(d[1])
+	}
+	if strings.Contains(set, "v") {
+		b = b.ValueSeparator(d[2])
+	}
+	r := b.LookupFunc(func(k string) *string {
 		*n++
 		if *n > c11LookupBudget || (c11BudgetHits >= 10 && *n > 400) {
 			panic(c11BudgetHit{})
@@ -91,6 +150,42 @@ func c11NewResolver(d [3]string, tbl map[string]string) *c11Resolver {
 		return ml(k)
 	}).MustBuild()
 	return &c11Resolver{r: r, n: n}
+}
+
+// c11Neutral is the first thing a history case does: one resolver is built with all four options
+// set explicitly to the documented defaults (and used once). Whatever earlier cases of the same
+// process configured, the outcome of a case then depends on the case's OWN history only, so a
+// recorded case replays in a fresh process.
+func c11Neutral() {
+	r := props.Builder().Prefix(c11Default[0]).Suffix(c11Default[1]).ValueSeparator(c11Default[2]).
+		LookupFunc(func(string) *string { return nil }).MustBuild()
+	_ = r.Resolve("x")
+}
+
+// c11SetOK: options may be left unset only where the triple has the documented default.
+func c11SetOK(d [3]string, set string) bool {
+	for j, o := range []string{"p", "s", "v"} {
+		if !strings.Contains(set, o) && d[j] != c11Default[j] {
+			return false
+		}
+	}
+	return true
+}
+
+// c11TripleOK: all delimiters non-empty, no character shared by two of them (the property's
+// "non-overlapping triples"; guards hand-written / shrunk cases).
+func c11TripleOK(d [3]string) bool {
+	for i := range d {
+		if d[i] == "" {
+			return false
+		}
+		for j := range d {
+			if i != j && strings.ContainsAny(d[i], d[j]) {
+				return false
+			}
+		}
+	}
+	return true
 }
 
 const (
@@ -415,6 +510,102 @@ func c11RawAlpha(d [3]string) string {
 	return string(out)
 }
 
+// c11OtherTriple picks a triple different from d.
+func c11OtherTriple(r *rand.Rand, d [3]string) [3]string {
+	for {
+		if o := pick(r, c11Triples); o != d {
+			return o
+		}
+	}
+}
+
+// c11GenSib: a sibling resolver with another delimiter triple and its own table (one time in
+// four for the random streams).
+func c11GenSib(r *rand.Rand, d [3]string, whens []string) *c11Sib {
+	if r.Intn(4) != 0 {
+		return nil
+	}
+	sd := c11OtherTriple(r, d)
+	g := c11NewGen(r, sd)
+	return &c11Sib{D: sd, Tbl: g.table(), In: g.input(), When: pick(r, whens)}
+}
+
+var (
+	c11WhenBatch  = []string{"before", "between", "interleaved"}
+	c11WhenConcat = []string{"before", "between"}
+)
+
+// c11GenHist: 2-3 resolvers with pairwise different triples (half of the time one of them has
+// the default triple, or one that shares delimiters with it, and leaves such options unset on the
+// builder), each with its own table; after every build 1-3 uses of resolvers built so far,
+// preferring EARLIER ones (used again after a later builder was configured). An input is a template
+// of the used resolver's grammar, sometimes followed by a placeholder in a sibling's syntax
+// (which the used resolver has to treat according to its own triple).
+func c11GenHist(r *rand.Rand) c11Hist {
+	var h c11Hist
+	n := 2 + r.Intn(2)
+	var gens []*c11Gen
+	dfltAt := -1
+	if r.Intn(2) == 0 {
+		dfltAt = r.Intn(n)
+	}
+	for i := 0; i < n; i++ {
+		var d [3]string
+		for try := 0; ; try++ {
+			d = pick(r, c11Triples)
+			if i == dfltAt {
+				d = pick(r, [][3]string{c11Triples[0], c11Triples[0], c11Triples[1], c11Triples[4]})
+			}
+			fresh := true
+			for _, x := range h.Res {
+				if x.D == d {
+					fresh = false
+				}
+			}
+			if fresh {
+				break
+			}
+			if try > 20 {
+				dfltAt = -1
+			}
+		}
+		set := ""
+		for j, o := range []string{"p", "s", "v"} {
+			// an option equal to the documented default is left to the builder half of the time
+			if d[j] != c11Default[j] || r.Intn(2) == 0 {
+				set += o
+			}
+		}
+		g := c11NewGen(r, d)
+		gens = append(gens, g)
+		var tbl [][2]string
+		if r.Intn(4) == 0 {
+			tbl = c11RenderTbl(d, pick(r, c11FixedTables))
+		} else {
+			tbl = g.table()
+		}
+		h.Res = append(h.Res, c11HRes{D: d, Set: set, Tbl: tbl})
+	}
+	for i := 0; i < n; i++ {
+		h.Steps = append(h.Steps, c11HStep{Op: "build", R: i})
+		for u, k := 0, 1+r.Intn(3); u < k; u++ {
+			j := r.Intn(i + 1)
+			if i > 0 && u == 0 && r.Intn(3) > 0 {
+				j = r.Intn(i) // an earlier-built resolver, after a later builder was configured
+			}
+			in := gens[j].input()
+			if n > 1 && r.Intn(4) == 0 {
+				o := r.Intn(n)
+				if o != j {
+					in += gens[o].ph(1)
+				}
+			}
+			h.Steps = append(h.Steps, c11HStep{Op: "use", R: j, In: in})
+		}
+	}
+	return h
+}
+
 func c11Run(c *Ctx) {
 	r := c.Rng
 	// (tok) exhaustive token strings
@@ -465,7 +656,12 @@ func c11Run(c *Ctx) {
 		for j := 0; j < 4; j++ {
 			in = append(in, g.input())
 		}
-		c.Do("batch", c11Batch{D: d, Tbl: tbl, In: in, Src: "gram"})
+		c.Do("batch", c11Batch{D: d, Tbl: tbl, In: in, Src: "gram", Sib: c11GenSib(r, d, c11WhenBatch)})
+	}
+	// (hist) histories: several resolvers from separate Builder() calls, used interleaved
+	for i := 0; i < c.N(1500); i++ {
+		c.Tick()
+		c.Do("hist", c11GenHist(r))
 	}
 	// (raw) random strings over the delimiter characters
 	for i := 0; i < c.N(2500); i++ {
@@ -494,7 +690,7 @@ func c11Run(c *Ctx) {
 				in = append(in, c11RawString(r, alpha, 12))
 			}
 		}
-		c.Do("batch", c11Batch{D: d, Tbl: tbl, In: in, Src: "raw"})
+		c.Do("batch", c11Batch{D: d, Tbl: tbl, In: in, Src: "raw", Sib: c11GenSib(r, d, c11WhenBatch)})
 	}
 	// (glue) table values that are halves of delimiters, substituted inside a placeholder body
 	// right next to the other half: the resolved body is looked up / split as BYTES
@@ -573,7 +769,7 @@ func c11Run(c *Ctx) {
 		if r.Intn(5) == 0 {
 			s2 = s1
 		}
-		c.Do("concat", c11Concat{D: d, Tbl: tbl, S1: s1, S2: s2})
+		c.Do("concat", c11Concat{D: d, Tbl: tbl, S1: s1, S2: s2, Sib: c11GenSib(r, d, c11WhenConcat)})
 	}
 }
 
@@ -593,6 +789,67 @@ func c11Eval(c *Ctx, kind string, raw []byte) {
 			panic(err)
 		}
 		c11EvalConcat(c, p)
+	case "hist":
+		var h c11Hist
+		if err := json.Unmarshal(raw, &h); err != nil {
+			panic(err)
+		}
+		c11EvalHist(c, h)
+	}
+}
+
+// c11SibRun holds the sibling resolver of a batch / concat case (nil-safe).
+type c11SibRun struct {
+	sib *c11Sib
+	tbl map[string]string
+	cr  *c11Resolver
+	res []c11Out
+}
+
+func c11NewSibRun(c *Ctx, sib *c11Sib) *c11SibRun {
+	if sib == nil {
+		return nil
+	}
+	if !c11TripleOK(sib.D) {
+		c.Dist("sibling:triple-outside-domain(ignored)")
+		return nil
+	}
+	return &c11SibRun{sib: sib, tbl: c11TblMap(sib.Tbl)}
+}
+
+// at runs the sibling at the given point of the case: built on its first turn, used on every turn.
+func (sr *c11SibRun) at(point string) {
+	if sr == nil {
+		return
+	}
+	switch w := sr.sib.When; {
+	case point == "before" && w != "before":
+		return
+	case point == "between" && w != "between" && w != "interleaved":
+		return
+	case point == "interleaved" && w != "interleaved":
+		return
+	}
+	if sr.cr == nil {
+		sr.cr = c11NewResolver(sr.sib.D, sr.tbl)
+	}
+	sr.res = append(sr.res, sr.cr.resolve(sr.sib.In))
+}
+
+// check: the sibling, too, resolves with ITS OWN triple and table every time it is used.
+func (sr *c11SibRun) check(c *Ctx) {
+	if sr == nil {
+		return
+	}
+	c.Dist("sibling:" + sr.sib.When)
+	ref := c11RefResolve(sr.sib.D, sr.tbl, sr.sib.In, c11RefBudget)
+	for _, r := range sr.res {
+		det := map[string]any{"sibling": sr.sib, "impl": r, "reference": ref}
+		c.DirectF("terminates(step-budget)", r.R != "budget", det, c11DivergeFinding(sr.sib.D, sr.tbl))
+		c.Direct("no-panic-other-than-circular-reference", r.R != "panic", det)
+		if ref.R != "budget" && r.R != "budget" && r.R != "panic" {
+			c.Direct("agrees-with-reference", c11Same(r, ref), det)
+		}
 	}
 }
 
@@ -650,13 +907,17 @@ func c11EvalBatch(c *Ctx, b c11Batch) {
 		lexed[i] = c11Lex(b.D, s)
 		bal[i] = c11Balanced(lexed[i])
 	}
+	sr := c11NewSibRun(c, b.Sib)
 	if !c11Timed(func() {
+		sr.at("before")
 		cr := c11NewResolver(b.D, tbl)
+		sr.at("between")
 		for i, s := range b.In {
 			res[i] = cr.resolve(s)
 			if bal[i] {
 				dup[i] = cr.resolve(s + s)
 			}
+			sr.at("interleaved")
 		}
 	}) {
 		c.Direct("terminates(wall-clock)", false, "batch did not finish within the backstop")
@@ -675,20 +936,34 @@ func c11EvalBatch(c *Ctx, b c11Batch) {
 		if hz {
 			c.Dist(b.Src + ":has-lone-char-of-multichar-delimiter")
 		}
+		// details (and the known-finding classification) are built only for a failing predicate:
+		// the exhaustive stream evaluates these lines more than a million times
 		det := func(extra any) any { return map[string]any{"in": s, "impl": r, "more": extra} }
-		c.DirectF("terminates(step-budget)", r.R != "budget", det(nil), c11DivergeFinding(b.D, tbl))
-		c.Direct("no-panic-other-than-circular-reference", r.R != "panic", det(nil))
+		if r.R == "budget" {
+			c.DirectF("terminates(step-budget)", false, det(nil), c11DivergeFinding(b.D, tbl))
+		}
+		if r.R == "panic" {
+			c.Direct("no-panic-other-than-circular-reference", false, det(nil))
+		}
 		// Resolve(s) == s when s has no prefix
 		if !strings.Contains(s, b.D[0]) {
 			c.Dist(b.Src + ":no-prefix")
-			c.Direct("no-prefix-identity", r.R == "ok" && r.S == s, det(nil))
+			if !(r.R == "ok" && r.S == s) {
+				c.Direct("no-prefix-identity", false, det(nil))
+			}
 		}
 		// agreement with the independent recursive-descent reference
 		ref := c11RefResolve(b.D, tbl, s, c11RefBudget)
 		if ref.R != "budget" && r.R != "budget" && r.R != "panic" {
-			c.Direct("agrees-with-reference", c11Same(r, ref), det(map[string]any{"reference": ref}))
-			c.Direct("circular-reference-only-on-true-cycle", r.R != "cycle" || ref.R == "cycle", det(map[string]any{"reference": ref}))
-			c.Direct("true-cycle-is-reported", ref.R != "cycle" || r.R == "cycle", det(map[string]any{"reference": ref}))
+			if !c11Same(r, ref) {
+				c.Direct("agrees-with-reference", false, det(map[string]any{"reference": ref}))
+			}
+			if r.R == "cycle" && ref.R != "cycle" {
+				c.Direct("circular-reference-only-on-true-cycle", false, det(map[string]any{"reference": ref}))
+			}
+			if ref.R == "cycle" && r.R != "cycle" {
+				c.Direct("true-cycle-is-reported", false, det(map[string]any{"reference": ref}))
+			}
 		}
 		// repetition: Resolve(s+s) == Resolve(s)+Resolve(s) for balanced s (never a cycle merely because of the repeat)
 		if bal[i] && r.R != "budget" && r.R != "panic" && !c11Glues(b.D, s, s) {
@@ -699,10 +974,13 @@ func c11EvalBatch(c *Ctx, b c11Batch) {
 			if hasPh {
 				c.Dist(b.Src + ":dup-checked")
 			}
-			c.Direct("repeat-homomorphism", c11Same(dup[i], want), map[string]any{"in": s, "Resolve(s)": r, "Resolve(s+s)": dup[i]})
+			if !c11Same(dup[i], want) {
+				c.Direct("repeat-homomorphism", false, map[string]any{"in": s, "Resolve(s)": r, "Resolve(s+s)": dup[i]})
+			}
 		}
 		implObs[i] = map[string]any{"bal": bal[i], "ntok": len(lexed[i]), "res": c11Wire(r)}
 	}
+	sr.check(c)
 	if nontrivial {
 		c.Nontrivial()
 	}
@@ -765,8 +1043,11 @@ func c11EvalConcat(c *Ctx, p c11Concat) {
 		return
 	}
 	var r1, r2, r12 c11Out
+	sr := c11NewSibRun(c, p.Sib)
 	if !c11Timed(func() {
+		sr.at("before")
 		cr := c11NewResolver(p.D, tbl)
+		sr.at("between")
 		r1, r2, r12 = cr.resolve(p.S1), cr.resolve(p.S2), cr.resolve(p.S1+p.S2)
 	}) {
 		c.Direct("terminates(wall-clock)", false, nil)
@@ -775,6 +1056,7 @@ func c11EvalConcat(c *Ctx, p c11Concat) {
 	if c11HasPh(l1) && c11HasPh(l2) {
 		c.Nontrivial()
 	}
+	sr.check(c)
 	det := map[string]any{"Resolve(s1)": r1, "Resolve(s2)": r2, "Resolve(s1+s2)": r12}
 	for _, r := range []c11Out{r1, r2, r12} {
 		c.DirectF("terminates(step-budget)", r.R != "budget", det, c11DivergeFinding(p.D, tbl))
@@ -799,6 +1081,121 @@ func c11EvalConcat(c *Ctx, p c11Concat) {
 	}
 	c.Corr("resolve", []any{obs(r1, len(l1), true), obs(r2, len(l2), true), obs(r12, len(l1)+len(l2), true)},
 		c11ModelObs(m))
+}
+
+// c11EvalHist runs a history. Every use of every resolver is held against the resolver's OWN
+// configuration: the independent reference and the model are given the triple and table that
+// resolver was built with, and a resolver built in isolation (after the history) with the same
+// four options must give the same answers as the one that lived next to its siblings.
+func c11EvalHist(c *Ctx, h c11Hist) {
+	tbls := make([]map[string]string, len(h.Res))
+	for i, rc := range h.Res {
+		if !c11TripleOK(rc.D) || !c11SetOK(rc.D, rc.Set) {
+			c.Dist("hist:configuration-outside-domain(skipped)")
+			return
+		}
+		tbls[i] = c11TblMap(rc.Tbl)
+	}
+	type use struct {
+		r        int
+		in       string
+		out      c11Out
+		laterCfg bool // a sibling builder was configured between this resolver's build and this use
+	}
+	var uses []use
+	if !c11Timed(func() {
+		c11Neutral()
+		live := make([]*c11Resolver, len(h.Res))
+		stamp := make([]int, len(h.Res)) // number of builds seen when resolver i was built
+		builds := 0
+		for _, st := range h.Steps {
+			if st.R < 0 || st.R >= len(h.Res) {
+				continue
+			}
+			switch st.Op {
+			case "build":
+				live[st.R] = c11NewResolverSet(h.Res[st.R].D, h.Res[st.R].Set, tbls[st.R])
+				builds++
+				stamp[st.R] = builds
+			case "use":
+				if live[st.R] == nil {
+					continue // used before built: nothing to run (shrunk case)
+				}
+				uses = append(uses, use{r: st.R, in: st.In, out: live[st.R].resolve(st.In), laterCfg: builds > stamp[st.R]})
+			}
+		}
+	}) {
+		c.Direct("terminates(wall-clock)", false, "history did not finish within the backstop")
+		return
+	}
+	// the same uses on resolvers built in isolation: build, use, discard (all four options set)
+	iso := make([]c11Out, len(uses))
+	if !c11Timed(func() {
+		for i, u := range uses {
+			iso[i] = c11NewResolver(h.Res[u.r].D, tbls[u.r]).resolve(u.in)
+		}
+	}) {
+		c.Direct("terminates(wall-clock)", false, "isolated re-run did not finish within the backstop")
+		return
+	}
+	c.Dist(fmt.Sprintf("hist:resolvers=%d", len(h.Res)))
+	nontrivial := false
+	perRes := make([][]int, len(h.Res))
+	for i, u := range uses {
+		rc := h.Res[u.r]
+		lexed := c11Lex(rc.D, u.in)
+		perRes[u.r] = append(perRes[u.r], i)
+		if u.laterCfg {
+			c.Dist("hist:use-after-later-build:" + u.out.R)
+			if c11HasPh(lexed) {
+				nontrivial = true
+			}
+		} else {
+			c.Dist("hist:use-of-latest-built:" + u.out.R)
+		}
+		if rc.Set != "psv" {
+			c.Dist("hist:use-of-resolver-relying-on-defaults")
+			if c11HasPh(lexed) && len(h.Res) > 1 {
+				nontrivial = true
+			}
+		}
+		ref := c11RefResolve(rc.D, tbls[u.r], u.in, c11RefBudget)
+		det := map[string]any{"resolver": u.r, "config": rc, "in": u.in, "impl": u.out, "reference": ref, "isolated": iso[i]}
+		c.DirectF("terminates(step-budget)", u.out.R != "budget", det, c11DivergeFinding(rc.D, tbls[u.r]))
+		c.Direct("no-panic-other-than-circular-reference", u.out.R != "panic", det)
+		if !strings.Contains(u.in, rc.D[0]) {
+			c.Direct("no-prefix-identity", u.out.R == "ok" && u.out.S == u.in, det)
+		}
+		if u.out.R == "budget" || u.out.R == "panic" {
+			continue
+		}
+		if ref.R != "budget" {
+			c.Direct("agrees-with-reference", c11Same(u.out, ref), det)
+			c.Direct("circular-reference-only-on-true-cycle", u.out.R != "cycle" || ref.R == "cycle", det)
+			c.Direct("true-cycle-is-reported", ref.R != "cycle" || u.out.R == "cycle", det)
+		}
+		if iso[i].R != "budget" && iso[i].R != "panic" {
+			c.Direct("resolves-with-its-own-configuration(same answers as a resolver built alone)", c11Same(u.out, iso[i]), det)
+		}
+	}
+	if nontrivial {
+		c.Nontrivial()
+	}
+	for ri, idx := range perRes {
+		if len(idx) == 0 {
+			continue
+		}
+		rc := h.Res[ri]
+		ins := make([]string, len(idx))
+		obs := make([]any, len(idx))
+		for k, i := range idx {
+			lexed := c11Lex(rc.D, uses[i].in)
+			ins[k] = uses[i].in
+			obs[k] = map[string]any{"bal": c11Balanced(lexed), "ntok": len(lexed), "res": c11Wire(uses[i].out)}
+		}
+		m := c.Model("resolve", map[string]any{"d": rc.D, "tbl": c11TblWire(rc.Tbl), "in": ins})
+		c.Corr("resolve", obs, c11ModelObs(m))
+	}
 }
 
 // ---------------------------------------------------------------- shrinking
@@ -834,12 +1231,75 @@ func c11Shrink(kind string, raw []byte) [][]byte {
 			}
 		}
 	}
+	// sibling of a batch / concat case: drop it, then empty its table / input
+	sibVariants := func(sib *c11Sib, f func(*c11Sib)) {
+		if sib == nil {
+			return
+		}
+		f(nil)
+		tblVariants(sib.Tbl, func(t [][2]string) { n := *sib; n.Tbl = t; f(&n) })
+		for _, v := range c11DropChars(sib.In) {
+			n := *sib
+			n.In = v
+			f(&n)
+		}
+	}
 	switch kind {
+	case "hist":
+		var h c11Hist
+		if json.Unmarshal(raw, &h) != nil {
+			return nil
+		}
+		// drop a resolver together with its steps
+		for i := range h.Res {
+			n := c11Hist{}
+			for j, rc := range h.Res {
+				if j != i {
+					n.Res = append(n.Res, rc)
+				}
+			}
+			for _, st := range h.Steps {
+				switch {
+				case st.R < i:
+					n.Steps = append(n.Steps, st)
+				case st.R > i:
+					st.R--
+					n.Steps = append(n.Steps, st)
+				}
+			}
+			emit(n)
+		}
+		// drop a step
+		for i := range h.Steps {
+			n := h
+			n.Steps = append(append([]c11HStep{}, h.Steps[:i]...), h.Steps[i+1:]...)
+			emit(n)
+		}
+		// smaller tables
+		for i := range h.Res {
+			i := i
+			tblVariants(h.Res[i].Tbl, func(t [][2]string) {
+				n := h
+				n.Res = append([]c11HRes{}, h.Res...)
+				n.Res[i].Tbl = t
+				emit(n)
+			})
+		}
+		// shorter inputs
+		for i, st := range h.Steps {
+			for _, v := range c11DropChars(st.In) {
+				n := h
+				n.Steps = append([]c11HStep{}, h.Steps...)
+				n.Steps[i].In = v
+				emit(n)
+			}
+		}
 	case "batch":
 		var b c11Batch
 		if json.Unmarshal(raw, &b) != nil {
 			return nil
 		}
+		sibVariants(b.Sib, func(sib *c11Sib) { n := b; n.Sib = sib; emit(n) })
 		if len(b.In) > 1 {
 			for _, s := range b.In {
 				n := b
@@ -861,6 +1321,7 @@ func c11Shrink(kind string, raw []byte) [][]byte {
 		if json.Unmarshal(raw, &p) != nil {
 			return nil
 		}
+		sibVariants(p.Sib, func(sib *c11Sib) { n := p; n.Sib = sib; emit(n) })
 		tblVariants(p.Tbl, func(t [][2]string) { n := p; n.Tbl = t; emit(n) })
 		for _, s := range c11DropChars(p.S1) {
 			n := p
